@@ -84,6 +84,30 @@ func c12Birth(w *W, st ref.Stamp, class string) {
 		w.Violatef("jie", birth, "no previous/next Jie for birth %s in its term table", birth)
 		return
 	}
+	// the same birth built from the lunar side must give the same fortunes (leap months, months 11-12-1, lead days)
+	if lm := l.GetMonth(); lm < 0 || lm >= 11 || lm == 1 || l.GetYear() != st.Y {
+		var l2 *calendar.Lunar
+		if pv := Call(func() { l2 = calendar.NewLunar(l.GetYear(), lm, l.GetDay(), st.H, st.Mi, st.S) }); pv != nil {
+			w.Violatef("lunar-route", birth, "NewLunar(%d,%d,%d,..) for birth %s panicked: %v", l.GetYear(), lm, l.GetDay(), birth, pv)
+		} else {
+			sig := func(x *calendar.Lunar) string {
+				s := ""
+				for g := 0; g <= 1; g++ {
+					y := x.GetEightChar().GetYunBySect(g, 1+g)
+					s += yunStr(y)
+					d := y.GetDaYun()[1]
+					ln := d.GetLiuNian()
+					s += ln[0].GetGanZhi() + ln[9].GetGanZhi() + ln[0].GetLiuYue()[0].GetGanZhi() + d.GetXiaoYun()[0].GetGanZhi()
+				}
+				return s
+			}
+			if a, b := sig(l), sig(l2); a != b {
+				w.Violatef("lunar-route", birth, "fortunes of birth %s differ between Solar.GetLunar() and NewLunar(%d,%d,%d,..): %s vs %s", birth, l.GetYear(), lm, l.GetDay(), a, b)
+			}
+			w.Eval(1)
+			w.Count("lunar-side-births", 1)
+		}
+	}
 	mIdx := ref.PairIndex(l.GetMonthInGanZhiExact())
 	tIdx := ref.PairIndex(l.GetTimeInGanZhi())
 	yang := ref.PairIndex(l.GetYearInGanZhiExact())%2 == 0
